@@ -196,6 +196,74 @@ def addM2M (S : List Entry) (link sn sb slen dn db dlen : Nat) : List Entry :=
     else .m2m link sn sb slen dn db dlen :: S
   | _ => .m2m link sn sb slen dn db dlen :: S
 
+/-! ### how the converter registers items and links (constructor API)
+
+Mirrors `ProblemFlattener`/`FlatConverter`: original items are created when the NL model is read (`root`); every other
+item is created while an `AutoLinkScope` is open (`create`: `AddVar`/`AddConstraint` -> `AutoLink`), or an existing item
+is linked again (`reuse`: map hits such as `MakeFixedVar`, shared functional constraints); the scope's destructor
+registers the links (`closeScope`: `CopyLink` for a single target, `One2ManyLink` otherwise); a range constraint is
+converted with auto-linking switched off and its own link (`slack`); equality encodings link several items to a new
+one (`many2one`).  Scopes are not nested.  Calls whose guard fails leave the state unchanged and clear `ok`. -/
+
+inductive Call where
+  | root (c : Nat)
+  | openScope (src : Nat)
+  | create (c : Nat)
+  | reuse (c : Nat)
+  | closeScope
+  | slack (con slk : Nat)
+  | many2one (srcs : List Nat) (tgt : Nat)
+deriving Repr, DecidableEq
+
+structure BSt where
+  items : List Nat := []                      -- every item (cell) that exists
+  roots : List Nat := []                      -- original items
+  ops : List Op := []                         -- registered link operations, in registration (= execution) order
+  scope : Option (Nat × List Nat) := none     -- open AutoLinkScope: source, pending targets
+  slackDone : List Nat := []                  -- range constraints already converted to slack form
+  ok : Bool := true
+deriving Repr
+
+/-- links registered by `~AutoLinkScope` -/
+def closeOps (src : Nat) (ts : List Nat) : List Op :=
+  match ts with
+  | [t] => [Op.copy src t]
+  | _ => ts.map (Op.distr src)
+
+def bstep (b : BSt) : Call → BSt
+  | .root c =>
+    if b.scope.isNone ∧ c ∉ b.items then { b with items := c :: b.items, roots := c :: b.roots } else { b with ok := false }
+  | .openScope s =>
+    if b.scope.isNone ∧ s ∈ b.items then { b with scope := some (s, []) } else { b with ok := false }
+  | .create c =>
+    match b.scope with
+    | some (s, ts) => if c ∉ b.items then { b with items := c :: b.items, scope := some (s, ts ++ [c]) } else { b with ok := false }
+    | none => { b with ok := false }
+  | .reuse c =>
+    match b.scope with
+    | some (s, ts) => if c ∈ b.items then { b with scope := some (s, ts ++ [c]) } else { b with ok := false }
+    | none => { b with ok := false }
+  | .closeScope =>
+    match b.scope with
+    | some (s, ts) => { b with ops := b.ops ++ closeOps s ts, scope := none }
+    | none => { b with ok := false }
+  | .slack con slk =>
+    match b.scope with
+    | some (s, []) =>
+      if con ∉ b.items ∧ slk ∉ b.items ∧ con ≠ slk ∧ s ∉ b.slackDone then
+        { b with items := con :: slk :: b.items, ops := b.ops ++ expandSlack s con slk, scope := none, slackDone := s :: b.slackDone }
+      else { b with ok := false }
+    | _ => { b with ok := false }
+  | .many2one srcs t =>
+    if b.scope.isNone ∧ t ∉ b.items ∧ srcs ≠ [] ∧ srcs.all (fun s => b.items.contains s) then
+      { b with items := t :: b.items, ops := b.ops ++ srcs.map (fun s => Op.distr s t) }
+    else { b with ok := false }
+
+def build (calls : List Call) : BSt := calls.foldl bstep {}
+
+/-- items that were never the source of a registered link: what is handed to the solver -/
+def BSt.leaves (b : BSt) : List Nat := b.items.filter fun c => b.ops.all fun o => o.src != c
+
 /-- purely structural feeding condition: every operation's source (or its target) is in the set of cells
 known to be named: the initially named cells and the targets of earlier operations -/
 def topoB : List Nat → List Op → Bool
